@@ -30,7 +30,8 @@ func TestVerifReplayC18(t *testing.T) {
 		lexemes []string
 	}
 	cases := []langCase{
-		{language.C, []string{"/*a*/", "\"s\"", "'c'", "//x\n", "y ", "\"http://u\"", "/* b */"}},
+		{language.C, []string{"/*a*/", "\"s\"", "'c'", "//x\n", "y ", "\"http://u\"", "/* b */", "/**/"}},
+		{language.Swift, []string{"/*a*/", "/**/", "/* a /**/ b */", "/* /* */*/", "//x\n", "y "}},
 		{language.Go, []string{"/*a*/", "\"s\"", "`raw`", "//x\n", "y ", "\"/*no*/\""}},
 		{language.Python, []string{"#a\n", "'s'", "\"t\"", "x ", "'#no'"}},
 		{language.Shell, []string{"#a\n", "'s'", "\"t\"", "x "}},
@@ -51,6 +52,23 @@ func TestVerifReplayC18(t *testing.T) {
 					}
 				}
 			}
+		}
+	}
+	// an empty multi-line comment is a complete lexeme: it is reported (with
+	// empty text) and does not swallow what follows
+	for _, ec := range []struct {
+		lang language.Language
+		in   string
+		want []string
+	}{
+		{language.C, "/**/ int x; /* c */\n", []string{"", " c "}},
+		{language.C, "/**/\nint y;\n", []string{""}},
+		{language.Swift, "/* /* */*/ x /* d */", []string{" /* */", " d "}},
+	} {
+		got := texts(Parse([]byte(ec.in), ec.lang))
+		if fmt.Sprintf("%q", got) != fmt.Sprintf("%q", ec.want) {
+			fails++
+			fmt.Printf("REPLAY-FAIL C18 Parse(%q, lang %v) = %q, a straightforward lexer finds %q\n", ec.in, ec.lang, got, ec.want)
 		}
 	}
 	if fails > 0 {
